@@ -506,3 +506,15 @@ func (c *Ctx) e1Depth() int {
 	}
 	return 2
 }
+
+// shadow returns a context sharing the loaded program but with an empty ledger: rules evaluated on
+// it record nothing in the property's evidence (used to consult one rule's verdict from another).
+func (c *Ctx) shadow() *Ctx {
+	s := *c
+	s.Obls = nil
+	s.keys = map[string]int{}
+	s.floors = map[string]int{}
+	s.order = nil
+	s.notes = nil
+	return &s
+}
